@@ -164,7 +164,8 @@ def merge(args):
     return 0
 
 def dump(args):
-    src_nii = nb.load(args.src_nii[0])
+    #Do not memory map the source: with --remove we write over that file
+    src_nii = nb.load(args.src_nii[0], mmap=False)
     src_wrp = NiftiWrapper(src_nii, args.make_empty)
     meta_str = src_wrp.meta_ext.to_json()
     args.dest_json.write(meta_str)
